@@ -69,6 +69,10 @@ static void deadline_after(long ticks, long delta, struct timespec * ts) {
   __int128 t = (__int128)cur_s * 1000000000 + cur_ns;
   long i = nreads;
   __sync_lock_release(&clk_lock);
+  /* "never": deadlines so far away that the call can only end by succeeding (the usual idioms) */
+  if (ticks == -2) { ts->tv_sec = 0x7fffffffffffffffL; ts->tv_nsec = 999999999L; return; }
+  if (ticks == -3) { ts->tv_sec = 20000000000L; ts->tv_nsec = 0; return; }
+  if (ticks == -4) { ts->tv_sec = 0x7fffffffL; ts->tv_nsec = 0; return; }
   if (ticks < 0) t -= 5000000000LL; else for (long k = 0; k < ticks; k++) t += Z.inc[(i + k) % Z.ninc];
   t += delta; if (t < 0) t = 0;
   ts->tv_sec = (long)(t / 1000000000); ts->tv_nsec = (long)(t % 1000000000);
@@ -79,7 +83,7 @@ enum { E_ENTER, E_OK, E_FAIL, E_UNL };
 static struct { int th, ev; } lg[4096]; static volatile int nlg;
 static void logev(int th, int ev) { int i = __sync_fetch_and_add(&nlg, 1); if (i < 4096) { lg[i].th = th; lg[i].ev = ev; } }
 
-static int st_sleeps, st_waited_sleeps, st_bad, st_tl_to, st_tl_ok, st_tj_to, st_tj_ok, st_carry, st_rem;
+static int st_sleeps, st_waited_sleeps, st_bad, st_tl_to, st_tl_ok, st_tj_to, st_tj_ok, st_carry, st_rem, st_never;
 
 static void * target_body(void * a) { int k = (int)(intptr_t)a; for (int i = 0; i < k; i++) { myth_yield(); mv_progress(); } return (void *)0x77; }
 static void * sibling_body(void * a) { (void)a; while (!Z.stop_sibling) { Z.sibling_cnt++; mv_spin(US_GATE); myth_yield(); } return 0; }
@@ -117,7 +121,7 @@ static void * script(void * a) {
       wit_leave(&Z.w, "hold"); Z0(myth_mutex_unlock(&Z.m)); logev(me, E_UNL);
       break;
     case K_TIMEDLOCK: case K_TIMEDLOCK_FREE: {
-      struct timespec dl; deadline_after(o->a, o->b, &dl);
+      struct timespec dl; deadline_after(o->a, o->b, &dl); if (o->a <= -2) st_never++;
       myth_mutex_t * mx = (o->kind == K_TIMEDLOCK) ? &Z.m : &Z.free_m[me];
       if (o->kind == K_TIMEDLOCK) logev(me, E_ENTER);
       int rc = myth_mutex_timedlock(mx, &dl);
@@ -127,6 +131,7 @@ static void * script(void * a) {
         else Z0(myth_mutex_unlock(mx));
       } else if (rc == ETIMEDOUT) {
         st_tl_to++;
+        if (o->a <= -2) mt_fail("timedlock with the deadline %ld.%09ld (never) timed out", (long)dl.tv_sec, dl.tv_nsec);
         if (o->kind == K_TIMEDLOCK_FREE) mt_fail("timedlock on a mutex nobody else uses timed out");
         logev(me, E_FAIL);
         if (r->reads == 0 || diff_ns(r->last_s, r->last_ns, dl.tv_sec, dl.tv_nsec) < 0)
@@ -143,6 +148,7 @@ static void * script(void * a) {
       if (rc == 0) { st_tj_ok++; if (rv != (void *)0x77) mt_fail("timedjoin delivered %p", rv); }
       else {
         st_tj_to++;
+        if (o->a <= -2) mt_fail("timedjoin with the deadline %ld.%09ld (never) gave up (rc=%d)", (long)dl.tv_sec, dl.tv_nsec, rc);
         if (r->reads == 0 || diff_ns(r->last_s, r->last_ns, dl.tv_sec, dl.tv_nsec) < 0)
           mt_fail("timedjoin gave up (rc=%d) at %ld.%09ld, before its deadline %ld.%09ld", rc, r->last_s, r->last_ns, (long)dl.tv_sec, dl.tv_nsec);
         Z0(myth_join(t, &rv));
@@ -189,7 +195,7 @@ void scen_c20(mt_case * c) {
       case K_USLEEP: o->a = (long)(dur / 1000); if (o->a > 4000000000L) o->a = 4000000000L; break;
       case K_SLEEP: o->a = (long)(dur / 1000000000); if (o->a > 100) o->a = 100; if (avg < 10000000) o->a = 0; break;
       case K_BADSLEEP: { int w = (int)rd_below(r, 5); o->a = (w == 3) ? -1 : (w == 4 ? -1000000 : (long)rd_below(r, 3)); o->b = (w == 0) ? -1 : (w == 1 ? 1000000000L : (w == 2 ? 0x7fffffffffffffffL : 5)); break; }
-      case K_TIMEDLOCK: case K_TIMEDLOCK_FREE: case K_TIMEDJOIN: o->a = (rd_below(r, 4) == 0) ? -1 : ticks; o->b = delta; o->k = (int)rd_below(r, 5); if (o->kind == K_TIMEDJOIN && rd_below(r, 4) == 0) o->b = 7; break;
+      case K_TIMEDLOCK: case K_TIMEDLOCK_FREE: case K_TIMEDJOIN: o->a = (rd_below(r, 4) == 0) ? -1 : ticks >= 22 ? ((20 - ticks == -4 && Z.start_s > 1700000000L) ? -3 : 20 - ticks) /* -2, -3, -4: never (the 2038 one only while the generated clock is far below it) */ : ticks; o->b = delta; o->k = (int)rd_below(r, 5); if (o->kind == K_TIMEDJOIN && rd_below(r, 4) == 0) o->b = 7; break;
       case K_HOLD: o->k = (int)rd_below(r, 6); break;
       }
       if (o->kind == K_NANOSLEEP || o->kind == K_BADSLEEP) o->k = (int)((ticks * 5 + (delta & 3) + i + t) % 3);   /* rem: 0 NULL, 1 separate, 2 same object as req */
@@ -226,7 +232,7 @@ void scen_c20(mt_case * c) {
   }
   mt_stat("sleeps", st_sleeps); mt_stat("sleeps_that_polled", st_waited_sleeps); mt_stat("malformed", st_bad); mt_stat("carry_sleeps", st_carry);
   mt_stat("timedlock_timeout", st_tl_to); mt_stat("timedlock_ok", st_tl_ok); mt_stat("timedjoin_timeout", st_tj_to); mt_stat("timedjoin_ok", st_tj_ok); mt_stat("clock_reads", nreads);
-  if (st_waited_sleeps) mt_label("sleep_polled"); if (st_bad) mt_label("malformed_duration"); if (st_carry) mt_label("nsec_carry"); if (st_rem) mt_label("rem_argument");
+  if (st_waited_sleeps) mt_label("sleep_polled"); if (st_bad) mt_label("malformed_duration"); if (st_carry) mt_label("nsec_carry"); if (st_rem) mt_label("rem_argument"); if (st_never) mt_label("deadline_never");
   if (st_tl_to) mt_label("timedlock_timeout"); if (st_tl_ok) mt_label("timedlock_ok"); if (st_tj_to) mt_label("timedjoin_timeout"); if (st_tj_ok) mt_label("timedjoin_ok");
   if (Z.W == 1) mt_label("W1");
   mt_nontrivial(st_waited_sleeps > 0 || st_tl_to > 0 || st_tj_to > 0);
